@@ -318,9 +318,9 @@ class Check:
             if rc != 0:
                 self.proof_broken.append("axiom audit failed to run: " + txt[-500:])
             found = {}
-            for m in re.finditer(r"'([^']+)' depends on axioms: \[([^\]]*)\]", txt, re.S):
+            for m in re.finditer(r"'(\S+)' depends on axioms: \[([^\]]*)\]", txt, re.S):
                 found[m.group(1)] = set(a.strip() for a in m.group(2).replace("\n", " ").split(",") if a.strip())
-            for m in re.finditer(r"'([^']+)' does not depend on any axioms", txt):
+            for m in re.finditer(r"'(\S+)' does not depend on any axioms", txt):
                 found[m.group(1)] = set()
             good = 0
             for t in thms:
